@@ -10,7 +10,7 @@ REPLAY_CRATE = os.path.join(VERIF, 'replay')
 _built = {}
 
 # which replay-crate family can search a concrete counterexample for a property
-FAMILY = {'C05': 'io', 'C06': 'io', 'C07': 'io', 'C19': 'io', 'C02': 'conv', 'C01': 'fmt', 'C04': 'fmt', 'C03': 'client', 'C08': 'queue', 'C09': 'queue', 'C10': 'queue', 'C11': 'queue', 'C15': 'queue', 'C16': 'queue', 'C13': 'sink', 'C14': 'sink', 'C17': 'macros', 'C20': 'io', 'C12': 'queue'}
+FAMILY = {'C05': 'io', 'C06': 'io', 'C07': 'io', 'C19': 'io', 'C02': 'conv', 'C01': 'fmt', 'C04': 'fmt', 'C03': 'client', 'C08': 'queue', 'C09': 'queue', 'C10': 'queue', 'C11': 'queue', 'C15': 'queue', 'C16': 'queue', 'C13': 'sink', 'C14': 'sink', 'C17': 'macros', 'C20': 'io+fmt', 'C12': 'queue'}
 
 
 def slug(name):
@@ -57,6 +57,16 @@ def search(prop, family, seed, budget):
 
 
 def _search(prop, family, seed, budget):
+    if family and '+' in family:
+        # several families serve this property: the first that finds a failing input wins
+        whys = []
+        for f in family.split('+'):
+            hit, why = _search(prop, f, seed, budget)
+            if hit:
+                hit['family'] = f
+                return hit, None
+            whys.append('%s: %s' % (f, why))
+        return None, ('search over %d seeded cases found no failing input' % budget) if all('found no failing input' in w for w in whys) else '; '.join(whys)
     if not build():
         return None, 'replay crate does not build against the current tree:\n' + _built.get('err', '')
     rc, out, err, _ = run([binary(), 'search', family, prop, str(seed), str(budget)], timeout=300)
@@ -120,7 +130,7 @@ def make_replay(prop, n, v, seed, tier):
         if fam:
             hit, why = search(prop, fam, seed, (200000 if tier == 'thorough' else 40000) if fam not in ('queue', 'sink') else (1500 if tier == 'thorough' else 300))
             if hit:
-                doc.update(family=fam, case=hit['case'], oracle_failures=hit['failures'],
+                doc.update(family=hit.get('family', fam), case=hit['case'], oracle_failures=hit['failures'],
                            source='seeded concrete search of the real code with the property oracle (replay crate)')
                 found = True
             else:
